@@ -47,7 +47,12 @@ PatchTable == <<
   P(<< [op |-> "test", path |-> <<47>>, value |-> Obj(<<Mem(ca, Arr(<<N1, Null>>)), Mem(cb, Obj(<<>>))>>)] >>),  \* 7 test "/" ... : an empty
                                       \* reference token is outside C01's domain - its RESULT is not specified, purity still is
   P(<< [op |-> "copy", from |-> <<47,97>>, path |-> <<47,100>>],
-       [op |-> "test", path |-> <<47,100>>, value |-> N2] >>) >>                                          \* 8 copy /a -> /d (8 bytes) ; test /d 2 (fails AFTER the copy)
+       [op |-> "test", path |-> <<47,100>>, value |-> N2] >>),                                           \* 8 copy /a -> /d (8 bytes) ; test /d 2 (fails AFTER the copy)
+  P(<< [op |-> "add", path |-> <<>>, value |-> Null] >>),                                                 \* 9 add "" null: the root becomes null (result unspecified;
+                                                                                                          \*   in the library the final encoding step fails)
+  P(<< [op |-> "add", path |-> <<47,107,126,49,108,126,48,109>>, value |-> N1],
+       [op |-> "copy", from |-> <<47,107,126,49,108,126,48,109>>, path |-> <<47,110,126,48,126,49>>],
+       [op |-> "test", path |-> <<47,110,126,48,126,49>>, value |-> N1] >>) >>                           \* 10 tokens that need ~1 / ~0 decoding: /k~1l~0m, /n~0~1
 \* merge patches
 MergeTable == <<
   Obj(<<Mem(ca, Null), Mem(cc, Obj(<<Mem(cd, N1)>>))>>),              \* 1 {"a":null,"c":{"d":1}}
@@ -66,6 +71,7 @@ SmallCalls ==
      { C3("Apply", d, p, 1) : d \in {1, 2}, p \in {1, 2, 3} }
   \cup { C3("Apply", 1, 2, 2), C3("Apply", 4, 1, 1), C3("ApplyIndent", 1, 5, 1), C3("Apply", 1, 7, 1) }
   \cup { C3("Apply", 1, 2, 3), C3("Apply", 1, 8, 3) }      \* under the limit: a copy that fits; a copy followed by a failing test
+  \cup { C3("Apply", 1, 9, 1), C3("Apply", 1, 10, 1), C3("Apply", 3, 10, 2) }
   \cup { C2("DecodePatch", 4, 0), C2("DecodePatch", 2, 0) }
   \cup { C2("MergePatch", 1, 1), C2("MergePatch", 1, 4), C2("MergePatch", 3, 2) }
   \cup { C2("MergeMergePatches", 1, 2), C2("CreateMergePatch", 1, 3), C2("CreateMergePatch", 1, 4) }
@@ -73,7 +79,7 @@ SmallCalls ==
 FullCalls == SmallCalls
   \cup { C3("Apply", d, p, o) : d \in {1, 2, 3, 5}, p \in {1, 2, 3, 5, 6}, o \in {1, 2} }
   \cup { C3("ApplyIndent", d, p, 1) : d \in {1, 2, 5}, p \in {1, 2} }
-  \cup { C2("DecodePatch", p, 0) : p \in 1..8 } \cup { C3("Apply", 2, 7, 1), C3("Apply", 5, 7, 2) }
+  \cup { C2("DecodePatch", p, 0) : p \in 1..10 } \cup { C3("Apply", 2, 7, 1), C3("Apply", 5, 7, 2) }
   \cup { C2("MergePatch", d, m) : d \in {1, 3, 4, 5}, m \in 1..4 }
   \cup { C2("MergeMergePatches", m, n) : m \in {1, 2}, n \in 1..4 }
   \cup { C2("CreateMergePatch", d, e) : d \in {1, 3, 5, 2}, e \in {1, 3, 5} }
